@@ -48,12 +48,18 @@ CLIENT_ARGS = ('description', 'wf_input', 'wf_identifier', 'wf_namespace',
                'wf_ex_id', 'async_')
 
 
+# name of the workbook of the current case (a dot in it, or a name made of
+# the characters the workflow names start with, must not confuse the
+# workbook-relative resolution)
+WB = ['wb']
+
+
 def tag(ns, full):
     return '%s:%s' % (ns or '-', full)
 
 
 def full_name(kind, k):
-    return ('wb.w%d' % k) if kind == 'wb' else ('w%d' % k)
+    return ((WB[0] + '.w%d') % k) if kind == 'wb' else ('w%d' % k)
 
 
 def body(case, k, key):
@@ -75,7 +81,7 @@ def body(case, k, key):
                             'deep': '<% env().n.deep %>'}}}
         return wf
     ref = case['refs'][k]
-    name = ('wb.w%d' % (k + 1)) if ref['form'] == 'full' else \
+    name = ((WB[0] + '.w%d') % (k + 1)) if ref['form'] == 'full' else \
         ('w%d' % (k + 1))
     if ref['via'] == 'yaql':
         name = '<%% $.names.w%d %%>' % (k + 1)
@@ -127,7 +133,7 @@ def definitions(case):
                     case, k, (kind, n))
         if wbm:
             out.append({'kind': 'wb', 'namespace': ns, 'text': yaml.safe_dump(
-                {'version': '2.0', 'name': 'wb', 'workflows': wbm},
+                {'version': '2.0', 'name': WB[0], 'workflows': wbm},
                 default_flow_style=False, sort_keys=False)})
         if stm:
             doc = {'version': '2.0'}
@@ -260,6 +266,8 @@ def cases(seed, tier):
             'scheduler': prng.choice(['legacy', 'default']),
             'orders': 3 if tier == 'quick' else 6,
             'uuid_seed': prng.randint(0, 10 ** 6),
+            'wb_name': prng.choice(['wb', 'wb', 'wb.x', 'acme.ops', 'w',
+                                    'ww']),
             'pseed': prng.randint(0, 10 ** 6)})
     return out
 
@@ -287,11 +295,12 @@ def run_case(case):
            'monitor_evaluations': {'subwf-tree': 0},
            'interleavings': [], 'sample': None}
     prng = random.Random(case['pseed'])
+    WB[0] = case.get('wb_name', 'wb')
     defs = definitions(case)
     want = reference(case)
     names = {}
     for k, ref in enumerate(case['refs']):
-        names['w%d' % (k + 1)] = ('wb.w%d' % (k + 1)) \
+        names['w%d' % (k + 1)] = ((WB[0] + '.w%d') % (k + 1)) \
             if ref['form'] == 'full' else ('w%d' % (k + 1))
     outcomes = []
     for i, o in case['leaf_out'].items():
